@@ -150,8 +150,11 @@ package transport
 //@   ensures fresh(result)
 
 // ---- C14: the standard transport's host-key callback, user and timeout --------------------------------------------------
-//@ func (*Standard).openSession
-//@   noverify
+// the ssh handshake - and with it the host-key callback of the config - is made by the ssh library against the configured
+// host name and port: the name the known-hosts lookup is done under is the one the user configured, not a resolved address
+//@ func (*Standard).openSession [C14]
+//@   modifies t.client, t.session, t.writer, t.reader
+//@   at call! Dial#1 assert #the-handshake-is-made-by-the-ssh-library-with-the-configured-host-and-port-under-the-config-that-was-built arg0 == "tcp" && arg1 == sprintf("%s:%d", ints(box("string", inj(a.Host)), box("int", a.Port))) && arg2 == cfg
 //@ ghost keyFile []byte local
 //@ ghost keySigner any local
 //@ ghost keyMethod any local
